@@ -78,6 +78,9 @@ def gen_pat():
     # root
     _, root = group_of("eFROM_ROOT")
     facts["root_walk_up_after"] = sorted(set(re.findall(r"prevStepType\s*==\s*XPathExpression::(e\w+)", root)))
+    # after an any-ancestor step FROM_ROOT re-tests that step (node test and predicates) on the top-level ancestor
+    facts["root_retests_previous_step"] = bool(re.search(r"NodeTester\s*\([^;]*?prevPos\s*\+\s*3[^;]*?prevStepType\s*\)", root)) and \
+        bool(re.search(r"doStepPredicate\s*\(", root))
     # function head
     _, fn = group_of("eOP_FUNCTION")
     facts["function_ancestor_loop"] = bool(re.search(
